@@ -10,19 +10,47 @@
 
 open Models
 
-let rec pos_of_int (n : int) : positive =
-  if n = 1 then XH
-  else if n land 1 = 0 then XO (pos_of_int (n lsr 1))
-  else XI (pos_of_int (n lsr 1))
+(* Wire words are Go int64 values; OCaml's native int has 63 bits, so the
+   conversion goes through Int64 (read as unsigned while halving, so that
+   -(min_int) = 2^63 comes out right).  Values the model may produce beyond
+   int64 are printed by schoolbook doubling. *)
+let rec pos_of_i64 (n : int64) : positive =
+  if Int64.equal n 1L then XH
+  else if Int64.equal (Int64.logand n 1L) 0L then XO (pos_of_i64 (Int64.shift_right_logical n 1))
+  else XI (pos_of_i64 (Int64.shift_right_logical n 1))
 
-let z_of_int (n : int) : z =
-  if n = 0 then Z0 else if n > 0 then Zpos (pos_of_int n) else Zneg (pos_of_int (- n))
+let z_of_i64 (n : int64) : z =
+  if Int64.equal n 0L then Z0
+  else if Int64.compare n 0L > 0 then Zpos (pos_of_i64 n)
+  else Zneg (pos_of_i64 (Int64.neg n))
+
+let z_of_int (n : int) : z = z_of_i64 (Int64.of_int n)
+
+let rec bits_of_pos (p : positive) : int =
+  match p with XH -> 1 | XO q -> 1 + bits_of_pos q | XI q -> 1 + bits_of_pos q
 
 let rec int_of_pos (p : positive) : int =
   match p with
   | XH -> 1
   | XO q -> 2 * int_of_pos q
   | XI q -> 2 * int_of_pos q + 1
+
+(* decimal text of an arbitrary positive: most significant bit first, d := 2d + bit *)
+let dec_of_pos (p : positive) : string =
+  let rec msb_first p acc = match p with
+    | XH -> 1 :: acc | XO q -> msb_first q (0 :: acc) | XI q -> msb_first q (1 :: acc) in
+  let digits = ref [0] in   (* little endian *)
+  Stdlib.List.iter (fun b ->
+      let carry = ref b in
+      let ds = Stdlib.List.map (fun d -> let v = 2 * d + !carry in carry := v / 10; v mod 10) !digits in
+      digits := if !carry > 0 then ds @ [!carry] else ds) (msb_first p []);
+  String.concat "" (Stdlib.List.rev_map string_of_int !digits)
+
+let string_of_z (x : z) : string =
+  match x with
+  | Z0 -> "0"
+  | Zpos p -> if bits_of_pos p <= 62 then string_of_int (int_of_pos p) else dec_of_pos p
+  | Zneg p -> if bits_of_pos p <= 62 then string_of_int (- (int_of_pos p)) else "-" ^ dec_of_pos p
 
 let int_of_z (x : z) : int =
   match x with Z0 -> 0 | Zpos p -> int_of_pos p | Zneg p -> - (int_of_pos p)
@@ -31,16 +59,21 @@ let split_ws (s : string) : string list =
   Stdlib.List.filter (fun t -> t <> "") (String.split_on_char ' ' s)
 
 let parse_ints (s : string) : z list =
-  Stdlib.List.map (fun t -> z_of_int (int_of_string t)) (split_ws s)
+  Stdlib.List.map (fun t ->
+      if String.length t <= 18 then z_of_int (int_of_string t) else z_of_i64 (Int64.of_string t)) (split_ws s)
 
 let show_ints (l : z list) : string =
-  String.concat " " (Stdlib.List.map (fun x -> string_of_int (int_of_z x)) l)
+  String.concat " " (Stdlib.List.map string_of_z l)
 
 let self_test () =
   let samples = [0; 1; -1; 2; 255; -256; 1 lsl 40; -(1 lsl 40) + 7; max_int / 2; - (max_int / 2)] in
   Stdlib.List.iter (fun n ->
       if int_of_z (z_of_int n) <> n then (prerr_endline "driver: Z conversion self-test failed"; exit 3))
-    samples
+    samples;
+  Stdlib.List.iter (fun t ->
+      if show_ints (parse_ints t) <> t then (prerr_endline ("driver: int64 conversion self-test failed on " ^ t); exit 3))
+    ["9223372036854775807"; "-9223372036854775808"; "-9223372036854775807"; "4611686018427387904";
+     "-4611686018427387904"; "4611686018427387903"; "4294967296"; "-2147483648"; "0"; "-1"]
 
 let () =
   self_test ();
